@@ -490,6 +490,18 @@ def _class_attr(prog: Any, cq: str, env: dict[str, Any], kw: dict[str, Any], nam
             if v is not None:
                 # a class attribute is one object shared by all instances: with a "__class_state__" dict in the rule's
                 # environment its value is built once (mutations are seen by later calls, as at run time)
+                if isinstance(v, ast.Call) and unparse(v.func).split(".")[-1] == "field":
+                    # a dataclass field: its default, or a fresh value of its default_factory kept on the instance
+                    kws = {k.arg: k.value for k in v.keywords if k.arg}
+                    it_ = Interp(module_env(prog, c.module, env, kw), **kw)
+                    if "default" in kws:
+                        return it_.ev(kws["default"])
+                    if "default_factory" in kws:
+                        val = it_.ev(kws["default_factory"])()
+                        if inst is not None and isinstance(inst, Proxy):
+                            object.__getattribute__(inst, "_a")[name] = val
+                        return val
+                    raise AttributeError(name)
                 state = env.get("__class_state__")
                 if state is not None and (q, name) in state:
                     return state[(q, name)]
